@@ -39,6 +39,31 @@ func ackReplayKeys(h *harness) {
 		c.Fail("panic", "ack-replay scenario panicked: "+p, replay{Part: "ack-replay"})
 		return
 	}
+	for _, path := range []string{"ws", "socks5"} {
+		var io cryptomesh.ICMPObs
+		rp := replay{Part: "ack-replay", Kind: "icmp-" + path}
+		if p := vh.Recover(func() { io = m.ReplayICMP(path) }); p != "" {
+			c.Fail("panic", "ICMP ack-replay scenario panicked: "+p, rp)
+			continue
+		}
+		if io.OpenErr != "" {
+			c.Note("ack-replay icmp-%s: session did not open (%s); not evaluated", path, io.OpenErr)
+			continue
+		}
+		if !io.KeysAgree {
+			c.Fail("key-mismatch-live-icmp-"+path, fmt.Sprintf("icmp %s path: the exit cannot open what the ingress sealed: the two ends do not hold the same key (%s)", path, io.Detail), rp)
+		}
+		a1, a2 := sortedKeys(io.KeysA1), sortedKeys(io.KeysA2)
+		same := len(a1) == len(a2)
+		for i := 0; same && i < len(a1); i++ {
+			same = a1[i] == a2[i]
+		}
+		if !same {
+			c.Fail("session-key-replaced-by-duplicate-ack-icmp-"+path, fmt.Sprintf("icmp %s path: a duplicated ICMP_OPEN_ACK replaced the ingress's session key (%d new derivations)", path, io.DerivedByReplay), rp)
+		}
+		c.Case("ack-replay/icmp-"+path, true, rp)
+		c.Count("ack-replay:icmp-" + path)
+	}
 	for _, o := range obs {
 		rp := replay{Part: "ack-replay", Kind: o.Kind}
 		if o.OpenErr != "" {
